@@ -43,6 +43,7 @@ def check(prog: Program, run: Run) -> None:
     compu.dop_gates(prog, run, "C03.R4")
     from . import c04
     c04.twoc_minimum_is_exact(prog, run, "C03.R5")
+    bytes_like_accepted(prog, run, "C03.R5")
     from . import c02
     common.run_as(run, "C02.R2", "C03.R6", lambda r: c02._siblings(prog, r))
     run.rule("C03.R7", "each part of a COMPU-SCALE is parsed with the data type of the side it "
@@ -51,3 +52,36 @@ def check(prog: Program, run: Run) -> None:
     compu.scale_parse_roles(prog, run, "C03.R7")
     common.g5_absence_by_truthiness(prog, run, "C03.G5", [
         "odxtools/compumethods/*.py", "odxtools/dataobjectproperty.py", "odxtools/dtcdop.py"])
+
+
+def bytes_like_accepted(prog: Program, run: Run, R: str) -> None:
+    """The decoder hands out byte fields as `bytes` (a slice of the PDU) or as `bytearray` (the
+    python type of A_BYTEFIELD, e.g. for zero bits): every type test an encoder applies to the
+    internal value that admits `bytes` admits `bytearray` too (`BytesTypes`)."""
+    import ast
+    from ..src import call_name, walk_no_nested
+    n = 0
+    for f in prog.iter_functions():
+        rel = f.module.rel
+        if not (rel.endswith(("lengthtype.py", "lengthinfotype.py", "diagcodedtype.py",
+                              "encodestate.py")) and rel.startswith("odxtools/")):
+            continue
+        for x in walk_no_nested(f.node):
+            if not (isinstance(x, ast.Call) and call_name(x) == "isinstance" and len(x.args) == 2):
+                continue
+            t = x.args[1]
+            names = [ast.unparse(e) for e in (t.elts if isinstance(t, ast.Tuple) else [t])]
+            if "bytes" not in names:
+                continue
+            n += 1
+            if "bytearray" in names or "BytesTypes" in names:
+                run.ok(R, f.qual, f"`{ast.unparse(x)}` admits bytearray as well",
+                       f"{rel}:{x.lineno}")
+            else:
+                run.violation(R, f.qual, "bytearray-rejected",
+                              f"`{ast.unparse(x)}` admits bytes but not bytearray: "
+                              "DecodeState.extract_atomic_value returns bytearray() for an "
+                              "empty A_BYTEFIELD (the python type of the base type), so the "
+                              "value just decoded is rejected when it is encoded again",
+                              f"{rel}:{x.lineno}", ast.unparse(x))
+    run.ok(R, "diag-coded types", f"{n} type tests that admit bytes inspected", "odxtools/")
